@@ -36,7 +36,9 @@ var fnames = []struct {
 
 var binops = []string{" or ", " and ", " = ", " != ", " < ", " <= ", " > ", " >= ", " + ", " - ", " * ", " div ", " mod ", " | ", "=", "!="}
 var litvals = []string{"''", "'a'", "'eth0'", "\"b\"", "'1'", "'x y'", "'é'", "'42'", "''"}
-var numvals = []string{"0", "1", "2", "42", "1.5", ".5", "1e3", "007", "3.", "1e", "1.2.3", "1e400", "99999999999999999999999999999999999999999", "1E-5", "0.0000001"}
+var numvals = []string{"0", "1", "2", "42", "1.5", ".5", "1e3", "007", "3.", "1e", "1.2.3", "1e400", "99999999999999999999999999999999999999999", "1E-5", "0.0000001",
+	// the edges of what numbers can be: negative, beyond the integers a float64 counts exactly, beyond int32/int64, infinities and NaN
+	"-1", "-0", "-42", "-1e17", "1e17", "-9007199254740993", "9007199254740993", "2147483648", "-2147483649", "4294967296", "9223372036854775808", "-9223372036854775809", "1e308", "-1e308", "(1 div 0)", "(-1 div 0)", "(0 div 0)"}
 var stepnames = []string{"a", "b", "c", "if", "name", "mtu", "x", "y", "k", "v", "pfx:a", "p:*", "*", "id"}
 
 func (g *Gen) pick(l []string) string { return l[g.T.Draw(len(l))] }
@@ -93,7 +95,7 @@ func (g *Gen) ArityVariant(n int) string {
 	}
 	args := make([]string, n)
 	for i := range args {
-		args[i] = g.pick([]string{"'a'", "1", "'b'", "2", "true()", "."})
+		args[i] = g.pick([]string{"'a'", "1", "'b'", "2", "true()", ".", "'abcde'", "-1", "-1e17", "1e17", "(1 div 0)", "(0 div 0)", "0", "''"})
 	}
 	return fnames[g.Focus-1].n + "(" + strings.Join(args, ", ") + ")"
 }
